@@ -16,7 +16,7 @@ def changed_sources(info) -> list:
     return sorted(n for n, s in sks.items() if base.get(n) != s.get("src_fingerprint"))
 
 
-def jobs(ctx, names, reps=1, record=False, snapshots=False):
+def jobs(ctx, names, reps=1, record=False, snapshots=False, grid_for=None):
     r = ctx.rng
     out = []
 
@@ -53,4 +53,11 @@ def jobs(ctx, names, reps=1, record=False, snapshots=False):
             if "perm" in works.get(nm, []):
                 add("perm", nm, {"max_cycles": 40, "population_size": P0}, {"vars": [("perm", 5)], "obj": "linear", "minmax": mm(), "seed": sd()})
             add("pop-equals-dim", nm, {"max_cycles": 20, "population_size": P0}, search.cont_task(obj="sphere", minmax=mm(), seed=sd(), dim=P0 if P0 <= 12 else 12))
+        # a fine grid of every float parameter x populations at the documented scale (1x, 1.5x, 2x, 3x): arithmetic on `fraction * population_size`
+        # (int / floor / ceil / round of products that are exact integers, or one ulp short of one, at decimal-looking values)
+        from . import validators
+        grid = validators.param_grid(nm) if (grid_for is None or nm in grid_for) else []
+        for mv in grid:
+            for mult in (1, 1.5, 2, 3):
+                add("param-grid", nm, {**mv, "max_cycles": 3, "population_size": int(P0 * mult)}, search.cont_task(obj="sphere", minmax="min", seed=r.randint(0, 10**6), dim=3))
     return out
